@@ -9,6 +9,16 @@ use std::panic::{self, AssertUnwindSafe};
 /// variants or under a defect in the code under test) costs milliseconds, not seconds.
 pub static FUEL_BUDGET: std::sync::atomic::AtomicU64 = std::sync::atomic::AtomicU64::new(100_000);
 
+/// Crash hunting (see driver::hunt_crash): when VERIF_TRACE_RUNS names a file, every worker writes
+/// the explicit scenario it is about to execute into it, so that after the process died (stack
+/// overflow, abort) the scenario that killed it can be read back. Off in normal runs.
+pub fn note_current(scenario: impl FnOnce() -> serde_json::Value) {
+    static PATH: std::sync::OnceLock<Option<std::path::PathBuf>> = std::sync::OnceLock::new();
+    if let Some(p) = PATH.get_or_init(|| std::env::var_os("VERIF_TRACE_RUNS").map(Into::into)) {
+        let _ = std::fs::write(p, scenario().to_string());
+    }
+}
+
 thread_local! {
     static PANICS: RefCell<Vec<String>> = const { RefCell::new(Vec::new()) };
 }
